@@ -20,6 +20,10 @@ s = open(p).read()
 if 'SUMMARY-BEGIN' in s:
     s = re.sub(r'<!-- SUMMARY-BEGIN -->.*?<!-- SUMMARY-END -->', '<!-- SUMMARY-BEGIN -->\n' + text + '\n<!-- SUMMARY-END -->', s, flags=re.S)
 else:
-    s = s.rstrip('\n') + '\n\n### 11.8 Size of the checks (from the evidence files of the last runs)\n\n<!-- SUMMARY-BEGIN -->\n' + text + '\n<!-- SUMMARY-END -->\n'
+    block = '### 11.8 Size of the checks (from the evidence files of the last runs)\n\n<!-- SUMMARY-BEGIN -->\n' + text + '\n<!-- SUMMARY-END -->\n'
+    if '### 11.9' in s:
+        s = s.replace('### 11.9', block + '\n### 11.9', 1)
+    else:
+        s = s.rstrip('\n') + '\n\n' + block
 open(p, 'w').write(s)
 print(text)
